@@ -103,7 +103,10 @@ def gen_pipeline(rng, nmax=6, nmin=1):
         npar = rng.choice([0, 1, 1, 2, 2, 2, 3, 3])
         pool = list(ROOTS[: rng.randint(1, 4)])
         names = []
-        for _ in range(npar):
+        tuples = [g["outs"] for g in funcs if len(g["outs"]) > 1]
+        if tuples and npar >= 2 and rng.random() < 0.35:      # read two outputs of one tuple function
+            names = rng.sample(rng.choice(tuples), 2)
+        for _ in range(npar - len(names)):
             if avail and rng.random() < 0.6:
                 c = rng.choice(avail)
             else:
